@@ -25,6 +25,16 @@ def sh(cmd, cwd=None, env=None, timeout=None):
 def build_harness():
     """Rebuild the driver against /repo's current working tree (path dependency)."""
     env = {"CARGO_NET_OFFLINE": "true"}
+    # the harness depends on ../.repo-link: /repo unless VERIF_REPO names another checkout (used for
+    # long background runs on a frozen copy; the registered checks always use /repo)
+    link = os.path.join(VERIF, ".repo-link")
+    target = os.environ.get("VERIF_REPO", "/repo")
+    if not (os.path.islink(link) and os.readlink(link) == target):
+        try:
+            os.remove(link)
+        except OSError:
+            pass
+        os.symlink(target, link)
     rc, out = sh(["cargo", "build", "--offline", "--profile", "verif", "--bins"], cwd=HARNESS, env=env,
                  timeout=1800)
     if rc != 0:
